@@ -28,7 +28,10 @@ structure Reno where
   bytesAcked : Nat := 0
 deriving Repr, DecidableEq
 
-def Reno.new (mtu : Nat) : Reno := { mtu := mtu, window := Gen.newRenoDefaultInitialWindow }
+/-- `NewReno::new` with a configured `initial_window` (window expression generated from the source) -/
+def Reno.newWith (initialWindow mtu : Nat) : Reno := { mtu := mtu, window := Gen.newRenoInitialWindow initialWindow mtu }
+
+def Reno.new (mtu : Nat) : Reno := Reno.newWith Gen.newRenoDefaultInitialWindow mtu
 
 def Reno.minimumWindow (c : Reno) : Nat := Gen.newRenoMinWindowFactor * c.mtu
 
@@ -90,7 +93,11 @@ structure Cubic where
   pre : Option CubicCore := none     -- pre_congestion_state
 deriving Repr, DecidableEq
 
-def Cubic.new (mtu : Nat) : Cubic := { mtu := mtu, st := { window := Gen.cubicDefaultInitialWindow } }
+/-- `Cubic::new` with a configured `initial_window` (window expression generated from the source) -/
+def Cubic.newWith (initialWindow mtu : Nat) : Cubic :=
+  { mtu := mtu, st := { window := Gen.cubicInitialWindow initialWindow mtu } }
+
+def Cubic.new (mtu : Nat) : Cubic := Cubic.newWith Gen.cubicDefaultInitialWindow mtu
 
 def Cubic.minimumWindow (c : Cubic) : Nat := Gen.cubicMinWindowFactor * c.mtu
 
@@ -217,9 +224,12 @@ deriving Repr, DecidableEq
 
 def calculateMinWindow (mtu : Nat) : Nat := Gen.bbrMinWindowFactor * mtu
 
-def Bbr.new (mtu : Nat) : Bbr :=
-  { mtu := mtu, cwnd := Gen.bbrDefaultInitialWindow, minCwnd := calculateMinWindow mtu,
-    initCwnd := Gen.bbrDefaultInitialWindow }
+/-- `Bbr::new` with a configured `initial_window` (`cwnd`, `init_cwnd`, `min_cwnd` generated from the source) -/
+def Bbr.newWith (initialWindow mtu : Nat) : Bbr :=
+  { mtu := mtu, initialWindow := initialWindow, cwnd := Gen.bbrInitialCwnd initialWindow mtu,
+    minCwnd := Gen.bbrInitialMinCwnd initialWindow mtu, initCwnd := Gen.bbrInitialInitCwnd initialWindow mtu }
+
+def Bbr.new (mtu : Nat) : Bbr := Bbr.newWith Gen.bbrDefaultInitialWindow mtu
 
 /-- `Bbr::on_sent` (bandwidth sampler opaque) -/
 def Bbr.onSent (c : Bbr) (pn : Nat) : Bbr := { c with maxSent := pn }
@@ -305,12 +315,12 @@ def Bbr.onEndAcks (c : Bbr) (inFlight : Nat) (largest : Option Nat) (o : BbrEndO
   -- maybe_enter_or_exit_probe_rtt / calculate_pacing_rate: observed
   Bbr.recalc { c3 with mode := o.mode, full := o.full } o.bytesAcked inFlight o.tw o.gainLt
 
-/-- `Bbr::on_mtu_update` (new `init_cwnd` and `cwnd` generated from the source; `recovery_window` is not
-    touched by the source) -/
+/-- `Bbr::on_mtu_update` (new `init_cwnd`, `cwnd` and `recovery_window` generated from the source) -/
 def Bbr.onMtuUpdate (c : Bbr) (mtu : Nat) : Bbr :=
   let c1 := { c with mtu := mtu, minCwnd := calculateMinWindow mtu }
   let c2 := { c1 with initCwnd := Gen.bbrMtuInitCwnd c1.initialWindow c1.minCwnd }
-  { c2 with cwnd := Gen.bbrMtuCwnd c2.cwnd c2.minCwnd }
+  let c3 := { c2 with cwnd := Gen.bbrMtuCwnd c2.cwnd c2.minCwnd }
+  { c3 with recoveryWindow := Gen.bbrMtuRecoveryWindow c3.recoveryWindow c3.minCwnd }
 
 /-- `Bbr::window`; `tc` = the float-derived `cwnd` of `get_target_cwnd(0.75)` (needed in PROBE_RTT only) -/
 def Bbr.window (c : Bbr) (tc : Option Nat) : Option Nat :=
